@@ -1,5 +1,6 @@
 import Uhppote.Gen.Types
 import Uhppote.Proofs.Zone
+import Uhppote.Gen.Source
 /-! # C13 — calendar dates and times keep their civil value in every time zone
 
 A zone is a piecewise-constant offset function with its period bounds (what Go's
@@ -70,5 +71,26 @@ example : civilSeconds 2024 9 8 0 0 0 = 1725753600 ∧ (1725753600 : Int) % 8640
 example : fieldsOf (civil santiago.zone (startOfDay santiago.zone 1725753600)) = (2024, 9, 8, 1, 0, 0) := by decide
 example : fieldsOf (civil santiago.zone (naiveDate santiago.zone 1725753600)) = (2024, 9, 7, 23, 0, 0) := by decide
 example : InGap 1725753600 1725768000 (-14400) (-10800) := by unfold InGap; decide
+
+/-- where the process zone (and the clock) can enter at all: the regenerated list of every function that reads
+    `time.Local` or `time.Now` (the clock: the driver's deadlines and `DateTimeNow` only). The zone is read by the decoders that place a transmitted civil time (`startOfDay`,
+    the date-time and system-time decoders), by the status recombination of GetStatus / Listen, and to label devices;
+    nothing else - no encoder, no comparison, no request builder - depends on the zone, the date or the time of day. -/
+theorem C13_zone_reads : Gen.Source.ambientReads =
+    ["types/date.go:startOfDay: time.Local",
+     "types/datetime.go:DateTimeNow: time.Now",
+     "types/datetime.go:DateTime.UnmarshalJSON: time.Local",
+     "types/datetime.go:DateTime.UnmarshalUT0311L0x: time.Local",
+     "types/systemtime.go:TimeFromString: time.Local",
+     "types/systemtime.go:SystemTime.UnmarshalUT0311L0x: time.Local",
+     "uhppote/UT0311.go:ut0311.Broadcast: time.Now",
+     "uhppote/UT0311.go:ut0311.BroadcastTo: time.Now",
+     "uhppote/UT0311.go:ut0311.SendUDP: time.Now",
+     "uhppote/UT0311.go:ut0311.SendTCP: time.Now",
+     "uhppote/device.go:NewDevice: time.Local",
+     "uhppote/get_device.go:uhppote.GetDevices: time.Local",
+     "uhppote/get_device.go:uhppote.GetDevice: time.Local",
+     "uhppote/get_status.go:uhppote.GetStatus: time.Local",
+     "uhppote/listen.go:uhppote.Listen: time.Local"] := by decide
 
 end Uhppote.Props.C13
